@@ -531,5 +531,142 @@ def r19_8(run):
     run.floor(2)
 
 
-RULES = [("R19.8", r19_8), ("R19.7", r19_7), ("R19.1", r19_1), ("R19.2", r19_2), ("R19.3", r19_3), ("R19.4", r19_4), ("R19.5", r19_5)]
+ALIASING_CALLS = {"asarray", "asanyarray", "ascontiguousarray", "ravel", "reshape", "view", "squeeze", "atleast_1d", "transpose"}
+INPLACE_METHODS = {"sort", "fill", "put", "resize", "itemset", "partition", "setfield", "byteswap"}
+
+
+def r19_9(run):
+    """the property functions are functions of their arguments: the mixture rules (calculate_*) and the getters of the fluid
+    property classes do not modify the arrays handed to them.  `np.asarray(x)` (and ravel / reshape / view / `.values`) returns x
+    itself when it already is a matching array, so an augmented assignment, an item store, an `out=` argument or an in-place
+    method on such an alias changes the caller's data (the next query with the same array then answers for different inputs)."""
+    ix = run.index
+    targets = [f for f in ix.module(PT).functions.values() if f.name.startswith("calculate_")]
+    for ci in _classes(ix):
+        for mn in ("get_at_value", "get_at_integral_value"):
+            if mn in ci.methods:
+                targets.append(ci.methods[mn])
+    n = 0
+    for f in targets:
+        node = f.raw_node
+        a = node.args
+        params = {x.arg for x in a.posonlyargs + a.args + a.kwonlyargs if x.arg not in ("self", "cls")}
+        if a.vararg:
+            params.add(a.vararg.arg)
+        alias = set(params)
+
+        def aliases(e):
+            """expression may denote (a view of) an argument array"""
+            if isinstance(e, ast.Name):
+                return e.id in alias
+            if isinstance(e, ast.Attribute) and e.attr in ("values", "T", "real", "flat"):
+                return aliases(e.value)
+            if isinstance(e, ast.Subscript):
+                # basic slicing gives a view; an index taken from *args is the argument itself
+                return aliases(e.value) and (isinstance(e.slice, (ast.Slice, ast.Constant)) or (isinstance(e.slice, ast.Tuple) and all(
+                    isinstance(x, (ast.Slice, ast.Constant)) for x in e.slice.elts)))
+            if isinstance(e, ast.Call):
+                fn = e.func
+                nm = fn.attr if isinstance(fn, ast.Attribute) else (fn.id if isinstance(fn, ast.Name) else "")
+                if nm in ALIASING_CALLS:
+                    recv = fn.value if isinstance(fn, ast.Attribute) and not (isinstance(fn.value, ast.Name) and fn.value.id in ("np", "numpy")) else None
+                    cand = ([recv] if recv is not None else []) + list(e.args[:1])
+                    return any(aliases(x) for x in cand)
+                if nm == "array" and any(k.arg == "copy" and isinstance(k.value, ast.Constant) and k.value.value is False for k in e.keywords):
+                    return bool(e.args) and aliases(e.args[0])
+            if isinstance(e, ast.IfExp):
+                return aliases(e.body) or aliases(e.orelse)
+            return False
+        bad = []
+
+        def effects(st):
+            """in-place effects of the expressions of one simple statement, under the aliases known at that point"""
+            for sub in ast.walk(st):
+                if isinstance(sub, ast.Call):
+                    for k in sub.keywords:
+                        if k.arg == "out" and aliases(k.value):
+                            bad.append((sub, "out=%s" % U(k.value)))
+                        if k.arg == "copy" and isinstance(k.value, ast.Constant) and k.value.value is False \
+                                and callee_name(sub) in ("nan_to_num",) and sub.args and aliases(sub.args[0]):
+                            bad.append((sub, "np.nan_to_num(..., copy=False)"))
+                    if isinstance(sub.func, ast.Attribute) and sub.func.attr in INPLACE_METHODS and aliases(sub.func.value):
+                        bad.append((sub, "in-place method .%s()" % sub.func.attr))
+
+        def walk(stmts):
+            """statement-ordered walk: a name rebound to a fresh value stops being an alias from there on; arms are joined by union"""
+            nonlocal alias
+            for st in stmts:
+                if isinstance(st, (ast.FunctionDef, ast.AsyncFunctionDef, ast.ClassDef)):
+                    continue
+                if isinstance(st, ast.If):
+                    effects(st.test)
+                    before = set(alias)
+                    walk(st.body)
+                    a1 = alias
+                    alias = set(before)
+                    walk(st.orelse)
+                    alias = a1 | alias
+                elif isinstance(st, (ast.For, ast.While)):
+                    effects(st.iter if isinstance(st, ast.For) else st.test)
+                    for _ in range(2):
+                        before = set(alias)
+                        if isinstance(st, ast.For) and aliases(st.iter):
+                            alias |= {x.id for x in ast.walk(st.target) if isinstance(x, ast.Name)}
+                        walk(st.body)
+                        alias |= before
+                    walk(st.orelse)
+                elif isinstance(st, ast.Try):
+                    before = set(alias)
+                    walk(st.body)
+                    acc = set(alias) | before
+                    for h in st.handlers:
+                        alias = set(acc)
+                        walk(h.body)
+                        acc |= alias
+                    alias = acc
+                    walk(st.orelse)
+                    walk(st.finalbody)
+                elif isinstance(st, ast.With):
+                    walk(st.body)
+                elif isinstance(st, ast.AugAssign):
+                    effects(st.value)
+                    root = st.target
+                    while isinstance(root, (ast.Subscript, ast.Attribute)):
+                        root = root.value
+                    if isinstance(root, ast.Name) and root.id in alias:
+                        bad.append((st, "in-place `%s`" % U(st)[:60]))
+                elif isinstance(st, (ast.Assign, ast.AnnAssign)):
+                    if st.value is None:
+                        continue
+                    effects(st.value)
+                    tg = st.targets if isinstance(st, ast.Assign) else [st.target]
+                    for t in tg:
+                        if isinstance(t, ast.Subscript) and aliases(t.value):
+                            bad.append((st, "item store `%s`" % U(st)[:60]))
+                        elif isinstance(t, ast.Name):
+                            if aliases(st.value):
+                                alias.add(t.id)
+                            else:
+                                alias.discard(t.id)
+                        elif isinstance(t, (ast.Tuple, ast.List)):
+                            src = st.value.elts if isinstance(st.value, (ast.Tuple, ast.List)) and len(st.value.elts) == len(t.elts) else None
+                            for i, x in enumerate(t.elts):
+                                if isinstance(x, ast.Name):
+                                    if (aliases(src[i]) if src else aliases(st.value)):
+                                        alias.add(x.id)
+                                    else:
+                                        alias.discard(x.id)
+                else:
+                    effects(st)
+        walk(node.body)
+        n += 1
+        run.analysed(f)
+        run.ob("%s|arguments-not-modified" % f.short, not bad,
+               "%s does not modify the arrays it is called with" % f.short, run.where(f, bad[0][0]) if bad else run.where(f, f.node),
+               detail="; ".join(b for _, b in bad[:3]) if bad else None)
+    run.stat("property_functions_checked_for_argument_purity", n)
+    run.floor(8)
+
+
+RULES = [("R19.8", r19_8), ("R19.7", r19_7), ("R19.1", r19_1), ("R19.2", r19_2), ("R19.3", r19_3), ("R19.4", r19_4), ("R19.5", r19_5), ("R19.9", r19_9)]
 THOROUGH = [("R19.6", r19_6)]
